@@ -259,28 +259,63 @@ func checkC09(c *Ctx, r *Report) {
 	}
 
 	// ---- rule 4: session-less wrappers
-	r.Rule("sessionless-null-wrapper", "session-less datagrams carry session ID 0 and sequence 0: the V2Session literal has neither field and neither is stored later", 2)
+	r.Rule("sessionless-null-wrapper", "every session-less packet is serialised from a session wrapper that was freshly set to a literal with neither ID nor Sequence (the decoder overwrites the wrapper with each reply), and neither field is stored individually", 2)
+	seenFn := map[*ssa.Function]bool{}
 	for _, s := range sessless {
 		for _, fn := range []*ssa.Function{s.Parent, s.Fn} {
+			if seenFn[fn] {
+				continue
+			}
+			seenFn[fn] = true
 			allInstrs(fn, false, func(in ssa.Instruction) {
-				st, ok := in.(*ssa.Store)
-				if !ok {
+				if st, ok := in.(*ssa.Store); ok {
+					sel := apOf(st.Addr).SelString()
+					if sel == "v2SessionLayer.ID" || sel == "v2SessionLayer.Sequence" {
+						r.Bad(c.FnName(fn)+"|store "+sel, st.Pos(), "session-less wrapper given a session ID or sequence number")
+					}
+				}
+				call, ok := in.(*ssa.Call)
+				if !ok || !isCallTo(in, fnSerializeLayers) {
 					return
 				}
-				sel := apOf(st.Addr).SelString()
-				switch sel {
-				case "v2SessionLayer":
-					f, _, ok := complitFields(st.Val)
-					if !ok {
-						r.Unk(c.FnName(fn)+"|store v2SessionLayer", st.Pos(), "session layer not initialised from a composite literal")
+				uses := false
+				for _, a := range serializeLayerArgs(call) {
+					if a != nil && apOf(stripConv(a)).SelString() == "v2SessionLayer" {
+						uses = true
+					}
+				}
+				if !uses {
+					return
+				}
+				// the whole-value store that reaches this call on every path, with no decode in between
+				var lit map[string]ssa.Value
+				var pos = call.Pos()
+				found := false
+				allInstrs(fn, false, func(in2 ssa.Instruction) {
+					sel, _, st, isSt := storeSel(in2)
+					if !isSt || sel != "v2SessionLayer" || !mustPrecede(fn, st, call) {
 						return
 					}
-					_, hasID := f["ID"]
-					_, hasSeq := f["Sequence"]
-					r.Check(!hasID && !hasSeq, c.FnName(fn)+"|literal v2SessionLayer", st.Pos(), "null session wrapper (no ID, no Sequence)", "session-less wrapper literal sets ID or Sequence")
-				case "v2SessionLayer.ID", "v2SessionLayer.Sequence":
-					r.Bad(c.FnName(fn)+"|store "+sel, st.Pos(), "session-less wrapper given a session ID or sequence number")
+					dirty := false
+					allInstrs(fn, false, func(in3 ssa.Instruction) {
+						if isDecodeCall(in3) && canReach(st, in3) && canReach(in3, call) {
+							dirty = true
+						}
+					})
+					if dirty {
+						return
+					}
+					if f, _, isLit := complitFields(st.Val); isLit {
+						lit, found, pos = f, true, st.Pos()
+					}
+				})
+				if !found {
+					r.Bad(c.FnName(fn)+"|SerializeLayers(v2SessionLayer)", call.Pos(), "the session-less wrapper is not reset to a null literal before being serialised: it can carry the session ID and sequence number of the last decoded reply")
+					return
 				}
+				_, hasID := lit["ID"]
+				_, hasSeq := lit["Sequence"]
+				r.Check(!hasID && !hasSeq, c.FnName(fn)+"|literal v2SessionLayer", pos, "null session wrapper (no ID, no Sequence)", "session-less wrapper literal sets ID or Sequence")
 			})
 		}
 	}
